@@ -117,7 +117,7 @@ var floats = []float64{0, math.Copysign(0, -1), 1, -1.5, 0.1, 1e21, 1e20, 1e300,
 
 // seconds since the epoch of interesting instants
 // (the first seven lie in the years 0001..9999)
-var dateSecs = []int64{0, 1700000000, -1, 951782400, 253402214400, -62135596800, 1e9, 253402300799, 253402300800, -62167219200,
+var dateSecs = []int64{0, 1700000000, -1, 951782400, 253402128000, -62135596800, 1e9, 253402300799, 253402300800, -62167219200,
 	-62167219201, -100000000000, 316000000000}
 
 func genLeaf(t *rapid.T) Node {
